@@ -186,6 +186,10 @@ func (f *FieldCopyToGenerator) genObjectBody(m *MessageCopyToGenerator, fieldNam
 		if len(m.Fields) > 0 {
 			if !m.IsEmpty {
 				g.Id("obj").Op(":=").Id(fieldName)
+			} else {
+				// _ = a: a message with no fields is not read, but the loop variable of
+				// a list/map of such messages must still be used
+				g.Id("_").Op("=").Id(fieldName)
 			}
 			g.Id("tf").Op(":=").Id("&v")
 			m.GenerateFields(g)
